@@ -573,10 +573,18 @@ def r2_7_u16_list(ctx, prog, rule="R2.7"):
         seen_w = {}
         for pa in wpaths:
             for i, e in enumerate(pa.log):
-                if e[0] != "call" or not re.search(r"ByteOrder>::write_u16$", e[1]):
+                if e[0] != "call" or not re.search(r"ByteOrder>::write_u16$|slice::<impl \[u8\]>::copy_from_slice$", e[1]):
                     continue
                 a = C.expr_of(pa, e[2], 0, i)
                 d, v = LP.strip(a[0]), LP.strip(a[1])
+                if e[1].endswith("copy_from_slice"):
+                    # slot.copy_from_slice(&x.to_be_bytes()): the big-endian write of x, spelled with std
+                    v0 = v
+                    while isinstance(v0, tuple) and len(v0) == 2 and isinstance(v0[1], str) and v0[1].startswith("."):
+                        v0 = LP.strip(v0[0])
+                    if not (isinstance(v0, tuple) and len(v0) == 2 and v0[0] == "u16::to_be_bytes"):
+                        continue
+                    v = LP.strip(v0[1])
                 ok = False
                 why = "write_u16(%s, %s)" % (show(d)[:80], show(v)[:60])
                 if isinstance(d, tuple) and len(d) == 2 and isinstance(d[0], tuple) and d[0][0].endswith("::next") and re.match(r"\.some\.0(\.\*)?$", d[1]):
